@@ -60,6 +60,10 @@ CHECKS = {
   "held on the observed twins: a model rendered with parts moved into (nested) macros and the same model rendered in place give the same verdict and byte-identical catalog; unused macros change nothing; every cyclic paste digraph up to the bound, undefined and duplicate macros are rejected with a diagnostic within the paste-depth budget",
   "trusts the renderer's paste extraction (one macro per run of sibling elements a MACRO admits) and the verif-tagged paste-depth counter",
   "runtime monitoring: metamorphic relation between two executions of the real code, exhaustive enumeration of small paste digraphs"),
+ "C08": ("exploration",
+  "held on the observed projects: cut-into-files twins give the same verdict and catalog; every INCLUDE name up to the length bound over the dangerous alphabet (exhaustive under the bound) behaves as the statement says inside a scratch tree with decoy files at every ancestor level; missing/directory/empty/ENOTDIR/ELOOP/cyclic targets give diagnostics; strace shows which files are really opened",
+  "trusts strace as the outside observer of file access and the renderer's cut extraction",
+  "runtime monitoring: metamorphic relation between two executions, bounded-exhaustive name enumeration end to end, syscall trace (strace) as event log checked offline"),
 }
 
 def main():
@@ -78,6 +82,8 @@ def main():
        "kind_free_text": "driver + crash-attributing worker processes + oracles over observations of the real library (runtime monitoring)"},
       {"name": "jsmon-race", "path": "harness/cmd/jsmon", "serves_properties": ["C16"],
        "kind_free_text": "the same binary built with -race (Go race detector, checkptr)"},
+      {"name": "strace", "path": "/usr/bin/strace", "serves_properties": ["C08"],
+       "kind_free_text": "syscall tracer used as outside observer of file access (open/openat/readlink/stat) for the INCLUDE confinement check"},
       {"name": "porcupine", "path": "harness/internal/checks/c16.go", "serves_properties": ["C16"],
        "kind_free_text": "linearizability checker (porcupine v1.3.0) over recorded collection histories"},
      ],
